@@ -193,7 +193,7 @@ def step (st : St) (toks : List String) : St × String :=
     match ofHex? pfx, bool? tep, bool? dz, ofHex? data, natList? ids with
     | some pfx, some tep, some dz, some data, some ids =>
       let own : Option CType := if ct == "-" then none else parseCType ct
-      let r := match onDataSink own true true pfx tep dz data (ids.map UInt8.ofNat) with
+      let r := match onDataSink own true true true pfx tep dz data (ids.map UInt8.ofNat) with
         | .raw => "raw"
         | .ownPacket => "ownPacket"
         | .otherCommunity => "otherCommunity"
@@ -207,7 +207,7 @@ def step (st : St) (toks : List String) : St × String :=
     match sip.toNat?, sport.toNat?, hip.toNat?, hport.toNat?, ofHex? pfx, bool? tep, bool? dz, ofHex? data with
     | some sip, some sport, some hip, some hport, some pfx, some tep, some dz, some data =>
       let own : Option CType := if ct == "-" then none else parseCType ct
-      let r := match onDataSink own true (fromFirstHop (sip, sport) (hip, hport)) pfx tep dz data with
+      let r := match onDataSink own true (fromFirstHop (sip, sport) (hip, hport)) (sameIp (sip, sport) (hip, hport)) pfx tep dz data with
         | .raw => "raw"
         | .ownPacket => "ownPacket"
         | .otherCommunity => "otherCommunity"
